@@ -5,6 +5,7 @@ package main
 import (
 	"fmt"
 	"go/ast"
+	"go/parser"
 	"go/token"
 	"go/types"
 	"os"
@@ -28,10 +29,15 @@ type World struct {
 	GOARCH   string
 	helmFns  []*ssa.Function // every function (incl. anonymous, methods) of helm module packages
 	fnByName map[string]*ssa.Function
+
+	InlineLog []string // what inline.go expanded / kept
 }
 
-// Load type-checks ./... of repoDir for the given platform and builds SSA for the whole program.
-func Load(repoDir, goos, goarch string) (*World, error) {
+// RefList is the set of function keys of the reference tree (reference/funcs.txt); nil disables the
+// normalisation of extract-function refactorings (inline.go).
+var RefList map[string]bool
+
+func loadPkgs(repoDir, goos, goarch string, fset *token.FileSet, overlay map[string]*ast.File) ([]*packages.Package, error) {
 	env := append(os.Environ(), "GOWORK=off", "GOFLAGS=-mod=mod", "GOPROXY=off", "CGO_ENABLED=0")
 	if goos != "" {
 		env = append(env, "GOOS="+goos)
@@ -39,18 +45,24 @@ func Load(repoDir, goos, goarch string) (*World, error) {
 	if goarch != "" {
 		env = append(env, "GOARCH="+goarch)
 	}
-	cfg := &packages.Config{Mode: packages.LoadAllSyntax, Dir: repoDir, Tests: false, Env: env}
-	pkgs, err := packages.Load(cfg, "./...")
-	if err != nil {
-		return nil, err
+	cfg := &packages.Config{Mode: packages.LoadAllSyntax, Dir: repoDir, Tests: false, Env: env, Fset: fset}
+	if overlay != nil {
+		cfg.ParseFile = func(fs *token.FileSet, filename string, src []byte) (*ast.File, error) {
+			if f := overlay[filename]; f != nil {
+				return f, nil
+			}
+			return parser.ParseFile(fs, filename, src, parser.AllErrors|parser.ParseComments)
+		}
 	}
-	w := &World{RepoDir: repoDir, Roots: pkgs, All: map[string]*packages.Package{}, GOOS: goos, GOARCH: goarch, fnByName: map[string]*ssa.Function{}}
+	return packages.Load(cfg, "./...")
+}
+
+func collect(w *World, pkgs []*packages.Package) error {
+	w.Roots = pkgs
+	w.All = map[string]*packages.Package{}
 	var errs []string
 	packages.Visit(pkgs, nil, func(p *packages.Package) {
 		w.All[p.PkgPath] = p
-		if w.Fset == nil && p.Fset != nil {
-			w.Fset = p.Fset
-		}
 		for _, e := range p.Errors {
 			errs = append(errs, e.Error())
 		}
@@ -60,18 +72,76 @@ func Load(repoDir, goos, goarch string) (*World, error) {
 		if len(errs) > 10 {
 			errs = errs[:10]
 		}
-		return nil, fmt.Errorf("load/type errors (%d shown): %s", len(errs), strings.Join(errs, "; "))
+		return fmt.Errorf("load/type errors (%d shown): %s", len(errs), strings.Join(errs, "; "))
 	}
 	if len(pkgs) < 50 {
-		return nil, fmt.Errorf("only %d root packages loaded (expected >= 50): the build was not covered", len(pkgs))
+		return fmt.Errorf("only %d root packages loaded (expected >= 50): the build was not covered", len(pkgs))
 	}
+	return nil
+}
+
+// Load type-checks ./... of repoDir for the given platform and builds SSA for the whole program.
+// Helpers that do not exist on the reference tree are expanded into their callers first (inline.go).
+func Load(repoDir, goos, goarch string) (*World, error) {
+	fset := token.NewFileSet()
+	w := &World{RepoDir: repoDir, Fset: fset, GOOS: goos, GOARCH: goarch, fnByName: map[string]*ssa.Function{}}
+	needInline := false
+	if RefList != nil {
+		if keys, err := refKeys(repoDir); err == nil {
+			for k := range keys {
+				if !RefList[k] {
+					needInline = true
+					break
+				}
+			}
+		}
+	}
+	pkgs, err := loadPkgs(repoDir, goos, goarch, fset, nil)
+	if err != nil {
+		return nil, err
+	}
+	if err := collect(w, pkgs); err != nil {
+		return nil, err
+	}
+	if needInline {
+		overlay, log, undo := planAndInline(w, RefList)
+		w.InlineLog = log
+		if len(overlay) > 0 {
+			pkgs2, err2 := loadPkgs(repoDir, goos, goarch, fset, overlay)
+			var cerr error
+			if err2 == nil {
+				cerr = collect(w, pkgs2)
+			}
+			if err2 != nil || cerr != nil {
+				// keep the expanded helpers' declarations (an unused import or an interface may need them)
+				w.InlineLog = append(w.InlineLog, fmt.Sprintf("removal of expanded helpers abandoned: %v %v", err2, cerr))
+				undo()
+				pkgs2, err2 = loadPkgs(repoDir, goos, goarch, fset, overlay)
+				cerr = nil
+				if err2 == nil {
+					cerr = collect(w, pkgs2)
+				}
+			}
+			if err2 != nil || cerr != nil {
+				// the expansion produced something the type checker rejects: analyse the program as written
+				w.InlineLog = append(w.InlineLog, fmt.Sprintf("expansion abandoned: %v %v", err2, cerr))
+				fset = token.NewFileSet()
+				w.Fset = fset
+				pkgs, err = loadPkgs(repoDir, goos, goarch, fset, nil)
+				if err != nil {
+					return nil, err
+				}
+				if err := collect(w, pkgs); err != nil {
+					return nil, err
+				}
+			}
+		}
+	}
+	pkgs = w.Roots
 	prog, _ := ssautil.AllPackages(pkgs, ssa.InstantiateGenerics)
 	prog.Build()
 	w.Prog = prog
 	for fn := range ssautil.AllFunctions(prog) {
-		if fn.Pkg == nil && fn.Parent() == nil && fn.Origin() == nil {
-			// synthetic wrappers without package: check receiver's package below
-		}
 		p := fnPkgPath(fn)
 		if p == helmMod || strings.HasPrefix(p, helmMod+"/") {
 			if fn.Synthetic != "" && fn.Syntax() == nil {
